@@ -15,7 +15,7 @@ CTOR = {
     'Blur': dict(base={}, alts={'blur_limit': [3, (3, 5)], 'by_slice': [True], 'mode': MODES, 'cval': [3, 0.5]}),
     'CenterCrop': dict(base={'height': 5, 'width': 4, 'depth': 3}, alts={'height': [1, 12], 'width': [10], 'depth': [8]}),
     'CoarseDropout': dict(base={'max_holes': 3, 'max_height': 3, 'max_width': 2, 'max_depth': 2},
-                          alts={'max_holes': [1], 'max_height': [0.25], 'min_holes': [1, 2], 'min_height': [1], 'min_width': [1],
+                          alts={'max_holes': [1], 'min_holes': [1, 2], 'min_height': [1], 'min_width': [1],
                                 'min_depth': [1], 'fill_value': [7, 1.5], 'mask_fill_value': [3],
                                 '_combo_float': [dict(max_height=0.3, max_width=0.25, max_depth=0.4, min_height=0.1,
                                                       min_width=0.1, min_depth=0.1)]}),
@@ -65,7 +65,7 @@ CTOR = {
     'RandomCrop': dict(base={'height': 5, 'width': 4, 'depth': 3}, alts={'height': [12, 1], 'width': [10], 'depth': [8, 1]}),
     'RandomCropFromBorders': dict(base={}, alts={'crop_left': [0.3], 'crop_right': [0.4], 'crop_top': [0.25],
                                                  'crop_bottom': [0.45], 'crop_close': [0.3], 'crop_far': [0.2]}),
-    'RandomCropNearBBox': dict(base={}, alts={'max_part_shift': [0.2, (0.1, 0.5, 0.3), 0, 1],
+    'RandomCropNearBBox': dict(base={}, alts={'max_part_shift': [0.2, (0.1, 0.5, 0.3), 0],
                                               'cropping_box_key': ['my_box']}, needs=['cropping_bbox']),
     'RandomGamma': dict(base={}, alts={'gamma_limit': [(50, 150), 120, (100, 100)]}),
     'RandomRotate90': dict(base={}, alts={'axes': ['yz', 'xz', ['xy', 'yz'], ('xz', 'yz', 'xy')]}),
